@@ -740,6 +740,7 @@ def nest_repeats(rng, case: dict, max_depth: int = 3) -> dict:
     cols = case["survey_cols"]
     double = any("::" in h for h in cols)
     label_cols = [h for h in cols if (read_header(h, double) or (None,))[0] == "label"]
+    hint_cols = [h for h in cols if (read_header(h, double) or (None,))[0] == "hint"]
     tree = _parse_tree([dict(r) for r in case["survey"]])
     counter = [0]
 
@@ -751,6 +752,11 @@ def nest_repeats(rng, case: dict, max_depth: int = 3) -> dict:
         for h in label_cols:
             if rng.random() < 0.6:
                 row[h] = f"R{k}|{h}"
+        # a hint written on a repeat/group row: never shown (sections have no <hint>), must not leak into any other element
+        if rng.random() < 0.3:
+            for h in hint_cols:
+                if rng.random() < 0.6:
+                    row[h] = f"RH{k}|{h}"
         row = {h: row[h] for h in cols if h in row}
         return {"row": row, "kids": kids, "end": {"type": "end " + kind}}
 
